@@ -981,8 +981,15 @@ func genScenario(e *Emitter, rng *rand.Rand) *Scenario { return genScenarioWith(
 func genScenarioWith(e *Emitter, rng *rand.Rand, override func(*Scenario)) *Scenario {
 	sc := &Scenario{}
 	sc.Cfg.Protocols = subset(rng, []string{"connect", "grpc", "grpcweb"}, true)
-	if rng.IntN(15) == 0 {
+	restOnly := false
+	switch rng.IntN(15) {
+	case 0:
 		sc.Cfg.Protocols = append(sc.Cfg.Protocols, "rest")
+	case 1:
+		// a REST-only service: only its one bound method (Unary) can be served at all; RPC requests
+		// for the others end as "not found" after their protocol headers were already taken apart
+		sc.Cfg.Protocols = []string{"rest"}
+		restOnly = true
 	}
 	sc.Cfg.Codecs = subset(rng, []string{"raw", "hexa", "rev"}, true)
 	sc.Cfg.Compress = subset(rng, []string{"Z", "Y"}, false)
@@ -993,6 +1000,9 @@ func genScenarioWith(e *Emitter, rng *rand.Rand, override func(*Scenario)) *Scen
 		override(sc)
 	}
 	m := pick(rng, methods)
+	for restOnly && m.name == "Unary" {
+		m = pick(rng, methods)
+	}
 	if len(genMethods) > 0 {
 		for !slices.Contains(genMethods, m.name) {
 			m = pick(rng, methods)
